@@ -253,7 +253,7 @@ def run(ctx):
     if not wit.hit:
         ctx.inconc("decoder witness observed no line events")
     # random long files (witness off: cost)
-    nr = (5000 if thorough else 240) // ctx.nshards
+    nr = (75000 if thorough else 240) // ctx.nshards
     for j in range(nr):
         r = ctx.rng("c12r", j)
         n = int(r.choice([1, 2, 5, 30, 200, 600] if thorough else [1, 2, 5, 30, 120]))
@@ -272,7 +272,7 @@ def run(ctx):
         if j % 60 == 0:
             ctx.sample({"random_file": True, "n_catalogs": n, "sizes_head": [len(c) for c in cats[:12]], "placeholders_head": ph[:12]})
     # rejection
-    for j in range((600 if thorough else 60) // ctx.nshards):
+    for j in range((9000 if thorough else 60) // ctx.nshards):
         r = ctx.rng("c12rej", j)
         n = int(r.integers(2, 7))
         cats = [[mk_event(r, i * 10 + q) for q in range(int(r.integers(1, 3)))] for i in range(n)]
